@@ -8,8 +8,10 @@ import impl
 import sexp
 
 RULE = ("grid over n_steps<=12 (thorough 16), burn_in<n_steps, thinning 1..4, kernels {mh, mala, mh;mh composite, mh;hmc composite}, "
-        "1 and 3 chains, fresh key per case: chain(b,k) vs the slice [b::k] of chain(0,1) under the same key (every trace leaf, accepts, "
-        "rate, count), vs manual iteration of the seeded kernel with the per-iteration keys, and vs the Lean model fed the recorded run; "
+        "1, 2 and 3 chains, fresh key per case: chain(b,k) vs the slice [b::k] of chain(0,1) under the same key (every trace leaf, accepts, "
+        "rate, count), vs manual iteration of the seeded kernel with the per-iteration keys, and vs the Lean model fed the recorded run "
+        "(Chain.chain for one chain; Chain.runChain = dispatch on n_chains + multiChain for the recorded per-lane flags: every trace leaf, "
+        "accepts, n_steps, n_chains, leading chain axis and the reported acceptance_rate as an exact rational); "
         "non-trivial = burn_in>0 or thinning>1")
 
 
@@ -99,9 +101,54 @@ def check_case(G, ctx, model, kernels, chain, kname, n, b, k, c, key_int, full_c
         if len(m_idx) != len(xs_res) or any(xs_full[i] != xs_res[j] for j, i in enumerate(m_idx)) or m_acc != [bool(a) for a in ra] or int(r[3]) != int(res.n_steps.value):
             case["model"] = r
             ctx.correspondence_break("Chain.chain vs chain()", f"model indices {m_idx} accepts {m_acc}", case)
+    model_runchain(ctx, full, res, fa, ra, n, b, k, c, case)
     ctx.case(sample=case if ctx.coverage["evaluations"] % 37 == 0 else None,
              nontrivial_key=(kname, n, b, k, c) if (b > 0 or k > 1) else None)
     ctx.count(f"{kname}:chains={c}")
+
+
+def model_runchain(ctx, full, res, fa, ra, n, b, k, c, case):
+    """Lean model `Chain.runChain` (dispatch on n_chains; `multiChain` lanes = single chains of the lanes' kernels)
+    fed the recorded un-thinned flags of every lane; states are identified by their step index.
+    Compared: result kind (chain axis or not), every trace leaf, accepts, n_steps, n_chains, acceptance_rate."""
+    lanes = [fa] if c == 1 else list(fa)
+    line = sexp.dumps(["runchain", n, b, k, c, [["T" if bool(a) else "F" for a in lane] for lane in lanes]])
+    r = sexp.loads(common.driver_run([line])[0])
+    name = "Chain.runChain vs chain(n_chains)"
+
+    def brk(what):
+        cs = dict(case)
+        cs["model_runchain"] = r
+        ctx.correspondence_break(name, what, cs)
+
+    if not r or r[0] != ("single" if c == 1 else "multi"):
+        return brk(f"model answered {r[:1]} for n_chains={c}")
+    if c == 1:
+        m_idx, m_acc, m_n, m_rate = [[int(t) for t in r[1]]], [[t == "T" for t in r[2]]], int(r[3]), float(sexp.num(r[5]))
+        got_acc = [[bool(a) for a in ra]]
+    else:
+        m_idx = [[int(t) for t in row] for row in r[1]]
+        m_acc = [[t == "T" for t in row] for row in r[2]]
+        m_n, m_rate = int(r[3]), float(sexp.num(r[6]))
+        got_acc = [[bool(a) for a in row] for row in ra] if ra.ndim == 2 else None
+        if int(r[4]) != int(res.n_chains.value):
+            return brk(f"model n_chains {r[4]} != result n_chains {int(res.n_chains.value)}")
+        if ra.ndim != 2 or ra.shape[0] != len(m_acc):
+            return brk(f"accepts have shape {ra.shape}, model has a leading chain axis of {len(m_acc)}")
+    if m_n != int(res.n_steps.value):
+        return brk(f"model n_steps {m_n} != result n_steps {int(res.n_steps.value)}")
+    if got_acc != m_acc:
+        return brk(f"model accepts {m_acc} != result accepts {got_acc}")
+    for lf, lr in zip(leaves_of(full), leaves_of(res)):
+        if lf.ndim < (1 if c == 1 else 2):
+            continue
+        for ci, idx in enumerate(m_idx):
+            want = lf[idx] if c == 1 else lf[ci][idx]
+            got = lr if c == 1 else (lr[ci] if lr.shape[:1] == (len(m_idx),) else None)
+            if got is None or want.shape != got.shape or not np.array_equal(want, got, equal_nan=True):
+                return brk(f"lane {ci}: a trace leaf is not the un-thinned run at the model's indices {idx}")
+    if m_n > 0 and abs(float(res.acceptance_rate) - m_rate) > 1e-6:
+        return brk(f"acceptance_rate {float(res.acceptance_rate)} != model rate {r[5] if c == 1 else r[6]} (mean of the returned flags)")
 
 
 def manual_iteration(G, ctx, model, kernels, chain, kname, n, key_int):
@@ -131,8 +178,8 @@ def shard(ctx, kname, cases, multi, manual_n):
     key_int = ctx.seed * 100 + 11
     for (n, b, k) in cases:
         check_case(G, ctx, model, kernels, chain, kname, n, b, k, 1, key_int, full_cache)
-    for (n, b, k) in multi:
-        check_case(G, ctx, model, kernels, chain, kname, n, b, k, 3, key_int, full_cache)
+    for (n, b, k, c) in multi:
+        check_case(G, ctx, model, kernels, chain, kname, n, b, k, c, key_int, full_cache)
     if manual_n:
         manual_iteration(G, ctx, model, kernels, chain, kname, manual_n, key_int + 1)
 
@@ -149,7 +196,7 @@ def run(ctx, audit):
                     grid.append((n, b, k))
         rng.shuffle(grid)
         grid = grid[: (70 if ctx.thorough else 14)]
-        multi = [(6, 2, 2), (7, 1, 3)] if kname in ("mh", "mala") else []
+        multi = [(6, 2, 2, 3), (7, 1, 3, 3)] if kname in ("mh", "mala") else [(5, 1, 2, 2)] if kname == "mh;mh" else []
         half = len(grid) // 2
         shards.append((kname, grid[:half], multi[:1], 4 if kname != "mh;mh" else 0))
         shards.append((kname, grid[half:], multi[1:], 0))
@@ -167,6 +214,8 @@ def replay(ctx, payload):
         manual_iteration(G, ctx, model, kernels, chain, c["kernel"], c["n_steps"], c["key"])
     for i in ctx.issues:
         print("REPRODUCED:", i["what"])
-    if not ctx.issues:
+    for i in ctx.corr_breaks:
+        print("CORRESPONDENCE:", i["what"])
+    if not ctx.issues and not ctx.corr_breaks:
         print("not reproduced")
     return 1 if ctx.issues else 0
